@@ -1,4 +1,4 @@
-import Wip.RunnerSums
+import Cutadapt.Proofs.RunnerSums
 import Cutadapt.Proofs.RunnerWriter
 /-! Inductive invariants of the multi-core protocol (`Cutadapt/Runner.lean`). -/
 namespace Cutadapt.Runner
